@@ -27,7 +27,14 @@ NAMES = ["a", "b", "c", "alpha", "beta", "zeta", "mid", "inp", "x1", "y_2", "B",
 # characters that go through shlex / str.format / the bracket clean-up untouched
 BENIGN = "abcxyzABZ0123456789-_./=:+@%$*;~#&|<>()!?^"
 BENIGN_WORDS = ["x", "in.txt", "out_1", "7", "a-b", "$HOME", "*.nii", "a;b", "k=v", "p/q/r.ext", "#c", "(1)", "~u", "A&B",
-                "é", "日本", "😀x", "naïve"]
+                "é", "日本", "😀x", "naïve",
+                # non-ASCII whitespace in the interior: not whitespace for shlex (only blank, tab, CR, LF are), so these
+                # are ordinary bytes for the model and must arrive as ONE argument (str.split() would break them).
+                # Never at the edge of a value: Python's str.strip() in argstr_formatting strips Unicode whitespace,
+                # which the byte-string model cannot express.
+                "10\u00a0mm", "Shot_10.30\u202fAM", "全\u3000角", "a\u0085b", "a\u2009b", "x\u2028y"]
+# ASCII control characters that str.split()/str.strip() treat as whitespace but shlex does not (interior only)
+CONTROL_WS_WORDS = ["x\x0cy", "p\x1cq", "a\x1db", "a\x1eb", "m\x1fn", "v\x0bw"]
 # the C23 alphabet: whitespace, quotes, backslash, shell metacharacters, unicode, brackets/commas (bracket clean-up)
 NASTY = " \t'\"\\$*;[],"
 NASTY_WORDS = ["a b", "it's", 'say "hi"', "back\\slash", "tab\there", "a  b", " lead", "trail ", "'q'", '"q"', "\\", "'", '"',
@@ -46,6 +53,8 @@ def _word(rng, nasty=0.0, braces=0.0):
     if r < braces + nasty:
         if rng.random() < 0.5:
             return rng.choice(NASTY_WORDS)
+        if rng.random() < 0.15:
+            return rng.choice(CONTROL_WS_WORDS)
         n = rng.randint(1, 6)
         return "".join(rng.choice(NASTY + "abé") for _ in range(n))
     if rng.random() < 0.5:
@@ -183,7 +192,9 @@ def gen_values(rng, case, nasty=0.0, braces=0.0, falsy=0.05, unset=0.3):
                 p[0] != "lit" for w in f["argstr"]["words"] for p in w) else 0.0) for _ in range(n)]}
         else:
             templ = bool(f["argstr"]) and any(p[0] != "lit" for w in f["argstr"]["words"] for p in w)
-            vals[f["name"]] = gen_atom(rng, ty, nasty, braces if templ else 0.0, falsy)
+            # 0 / 0.0 inside a template is an ordinary value (only `if value:` on a placeholder-free argstr drops it)
+            fz = max(falsy, 0.25) if templ and ty in ("int", "float") and falsy > 0 else falsy
+            vals[f["name"]] = gen_atom(rng, ty, nasty, braces if templ else 0.0, fz)
     for f in case["fields"]:
         v = vals.get(f["name"])
         if f.get("file") and v is not None:
